@@ -20,13 +20,13 @@ CHECKS = {
         text='Seeded well-formed histories from simulated client/server endpoints that allocate ids as libwayland does (LIFO reuse of client ids only '
              'after delete_id, free reuse of server-range ids, registry binds of known/unknown interfaces, objects created by requests and events) are '
              'run through the real tool; after every message the target, every object / new-id argument and the delete_id subject the tool attributes '
-             '(Connection.messages() objects and the type@id+letters tokens on output lines) are compared with ground truth; identity/bijection of objects at end of run.',
+             '(Connection.messages() objects and the type@id+letters tokens on output lines) are compared with ground truth; identity/bijection of objects at end of run. A quarter of the runs (lanes 12-15) feed the same kind of history as libwayland closures through the GDB world (real plugin.py / extract.py on the fake gdb, messages from foreign threads included) and judge it with the same oracle.',
         note='Trusted: wl_map id-allocation model, printer model, independent XML reader. Sampling of histories, not proof; no transport faults because the quantifier is well-formed histories.',
         technique=TECH),
     'C03': dict(level='exploration', ref='4 C03',
         text='Same simulated world with the simulator clock supplying timestamps; after every message the alive flag of every reachable object is compared with the '
              'ground-truth lifetime (delete_id for client ids, silent death on re-use for server-range ids), no resurrection, at most one live object per id, '
-             'destruction annotations present exactly on delete_id lines naming the right incarnation with lifespan = destroy - create within print precision.',
+             'destruction annotations present exactly on delete_id lines naming the right incarnation with lifespan = destroy - create within print precision. A quarter of the runs (lanes 12-15) feed the same kind of history as libwayland closures through the GDB world (real plugin.py / extract.py on the fake gdb, messages from foreign threads included) and judge it with the same oracle.',
         note='Trusted: as C02 plus the simulated clock; lifespans compared at 0.5e-4 s tolerance.',
         technique=TECH),
     'C04': dict(level='exploration', ref='4 C04',
